@@ -407,6 +407,13 @@ func (fv *FuncVerifier) specHelper(st *State, env *Env, call *ast.CallExpr, name
 		}
 		al := fv.heapGet(src, "$ghost:alloc", "(Array Ref Bool)")
 		return And(Not(App(SBool, "=", r, Null)), Not(App(SBool, "select", al, r))), true
+	case "spec_sortedKeys":
+		m := fv.eval(st, env, call.Args[0])
+		if !w.IsMap(m.Sort) || w.mapKV[m.Sort][0] != "Seq_Int" {
+			return fv.unsupported(st, env, call, "spec_sortedKeys of non string-keyed map", w.SeqSort("Seq_Int")), true
+		}
+		dom := App("(Array Seq_Int Bool)", "dom_"+mapX(m.Sort), m)
+		return fv.sortedKeys(dom), true
 	case "spec_assert":
 		c := fv.eval(st, &Env{info: env.info, binds: env.binds, names: env.names, old: env.old, oldB: env.oldB, entry: env.entry, spec: true}, call.Args[0])
 		fv.oblige(st, env, "F", "assert", c, call.Lparen, "ghost assertion (lemma)")
